@@ -15,6 +15,7 @@ use simrt::net::UdpLog;
 use simrt::sched::{ExecPlan, ExecRecord, Strategy};
 use simrt::{Fault, FaultCfg};
 use std::net::{IpAddr, SocketAddr};
+use std::sync::atomic::{AtomicU64, Ordering::SeqCst};
 use std::sync::{Arc, OnceLock};
 use std::time::Duration;
 
@@ -70,6 +71,9 @@ pub struct Scn {
     pub shutdown_at_ms: Option<u64>,
     pub clock: String,
     pub strategy: String,
+    /// calibration run: measure the provider's time-out constants instead of checking
+    #[serde(default)]
+    pub calibrate: bool,
 }
 
 pub struct C30;
@@ -77,8 +81,27 @@ pub struct C30;
 const S4: &str = "10.0.0.53:53";
 const S4B: &str = "10.0.0.54:53";
 const S6: &str = "[fd00::53]:53";
-const READ_TIMEOUT_MS: u64 = 5_000;
-const SHUTDOWN_POLL_MS: u64 = 1_000;
+/// Implementation constants of the providers, *measured* once per process on the simulated
+/// network (see `calibrate`): how long an idle TCP connection is kept open and how long
+/// shutting down an idle provider takes. The client discipline ("every message within the
+/// read time-out") and the liveness bounds are derived from them, so that a change of the
+/// constants alone cannot raise an alarm.
+pub static READ_TIMEOUT_MS: [AtomicU64; 2] = [AtomicU64::new(5_000), AtomicU64::new(5_000)];
+pub static IDLE_SHUTDOWN_MS: [AtomicU64; 2] = [AtomicU64::new(1_000), AtomicU64::new(0)];
+pub fn provider_ix(scn: &Scn) -> usize {
+    (scn.provider == "tokio") as usize
+}
+/// A message may take at most this long (80 % of the measured read time-out).
+pub fn msg_budget_ms(scn: &Scn) -> u64 {
+    READ_TIMEOUT_MS[provider_ix(scn)].load(SeqCst) * 4 / 5
+}
+/// How long a client waits in one read before it gives up (6 x the read time-out).
+pub fn client_patience(scn: &Scn) -> Duration {
+    Duration::from_millis(READ_TIMEOUT_MS[provider_ix(scn)].load(SeqCst) * 6)
+}
+pub fn shutdown_bound_ms(scn: &Scn) -> u64 {
+    IDLE_SHUTDOWN_MS[provider_ix(scn)].load(SeqCst) + READ_TIMEOUT_MS[provider_ix(scn)].load(SeqCst) + 10
+}
 
 fn huge_zone() -> Arc<quandary::db::HashMapTreeZone> {
     static Z: OnceLock<Arc<quandary::db::HashMapTreeZone>> = OnceLock::new();
@@ -282,6 +305,7 @@ impl Prop for C30 {
             shutdown_at_ms: if chance(r, 12) { Some(*pick(r, &grid) + r.below(3) * 700) } else { None },
             clock,
             strategy: pick(r, &["random", "random", "random", "pct:2", "pct:3"]).to_string(),
+            calibrate: false,
         }
     }
     fn plan(r: &mut SplitMix, scn: &Scn) -> ExecPlan {
@@ -295,6 +319,22 @@ impl Prop for C30 {
     // Step-bound exhaustion is always inconclusive here: a legitimate run (tens of kilobytes read
     // in tiny chunks, minutes of simulated polling) can need many decisions. Liveness is checked
     // in simulated time instead: client read time-outs, the shutdown bound, engine-detected deadlock.
+    fn prepare() {
+        static DONE: OnceLock<()> = OnceLock::new();
+        DONE.get_or_init(|| {
+            for provider in ["blocking", "tokio"] {
+                let scn = Scn {
+                    provider: provider.into(), tcp_base_workers: 1, linger_ms: 0, udp_workers: 1, payload: 1232, wildcard_bind: false, tcp: vec![], udp: vec![],
+                    faults: vec![], shutdown_at_ms: None, clock: "des".into(), strategy: "random".into(), calibrate: true,
+                };
+                let plan = ExecPlan { seed: 1, strategy: Strategy::Random, clock: simrt::sched::ClockPolicy::Des, max_steps: 1_000_000 };
+                let out = crate::driver::execute_once::<C30>(&scn, plan, false);
+                if out.violation.is_some() {
+                    eprintln!("C30 calibration failed for the {provider} provider: {:?}; using defaults", out.violation);
+                }
+            }
+        });
+    }
     fn run(scn: &Scn) {
         if scn.provider == "tokio" {
             super::c30_tokio::run(scn)
@@ -396,7 +436,7 @@ impl Prop for C30 {
         vec![
             "requests on which the reference `handle_message` itself unwinds are removed from the batch (C01's business)".into(),
             "exact TCP equality + EOF is required only under the DES clock without connection fault, mid-run shutdown or spawn failure; otherwise the received octets must be a message-granular prefix of the expected stream".into(),
-            "client writes keep every message within 4 simulated seconds (the server's read time-out is 5 s)".into(),
+            "client writes keep every message within 80 % of the provider's read time-out, which is measured once per process on an idle connection (as are the idle-shutdown time and, from them, the client patience and the shutdown bound): changing those constants alone cannot raise an alarm".into(),
             "the wall clock is frozen relative to simulated time; no TSIG and no RRL in this workload".into(),
         ]
     }
@@ -408,6 +448,9 @@ impl Prop for C30 {
     }
     fn engine() -> &'static str {
         "E1 simrt-threads (blocking provider) + E2 tokio-paused (Tokio provider)"
+    }
+    fn extra_coverage(_stats: &simrt::Stats) -> serde_json::Value {
+        serde_json::json!({ "measured_provider_constants": calibration_summary() })
     }
     fn expected_probes() -> Vec<&'static str> {
         vec!["c30_tcp_exact_stream_checked", "c30_tcp_closed_after_responseless", "c30_tcp_leftover_pipelined", "c30_udp_truncated_to_buffer", "c30_shutdown_midrun", "tcp_write_blocked_on_backpressure", "c30_udp_exactly_once_checked", "c30_tokio_runs", "c30_blocking_runs"]
@@ -551,7 +594,7 @@ pub fn judge_tcp(scn: &Scn, ci: usize, plan: &TcpPlan, res: &TcpResult, exact: b
             return;
         }
         if !res.eof && c.fault == 0 {
-            viol("tcp-connection-not-closed", format!("{who}: all responses received but no EOF within 30 simulated seconds (response-less request last: {}); err={:?}", plan.ends_with_responseless, res.read_error));
+            viol("tcp-connection-not-closed", format!("{who}: all responses received but no EOF within the client's patience (6 x the read time-out) (response-less request last: {}); err={:?}", plan.ends_with_responseless, res.read_error));
             return;
         }
         if plan.ends_with_responseless {
@@ -640,11 +683,32 @@ fn run_blocking(scn: &Scn) {
         return;
     }
 
+    if scn.calibrate {
+        // an idle connection: how long until the server closes it?
+        use std::io::Read;
+        let mut c = simrt::net::connect(target_addr(false, false), tcp_client_addr(0, false), 1 << 20).expect("connect");
+        let _ = c.set_read_timeout(Some(Duration::from_secs(3600)));
+        let t0 = simrt::now_ns();
+        let mut b = [0u8; 8];
+        if let Ok(0) = c.read(&mut b) {
+            READ_TIMEOUT_MS[0].store(((simrt::now_ns() - t0) / 1_000_000).max(100), SeqCst);
+        }
+        drop(c);
+        simrt::thread::sleep(Duration::from_millis(100));
+        let t0 = simrt::now_ns();
+        group.shut_down();
+        group.await_shutdown();
+        IDLE_SHUTDOWN_MS[0].store((simrt::now_ns() - t0) / 1_000_000, SeqCst);
+        simrt::thread::wait_all_exited();
+        simrt::finish();
+        return;
+    }
     let plans: Vec<Arc<TcpPlan>> = (0..scn.tcp.len()).map(|i| Arc::new(tcp_plan(scn, i, &reference_server))).collect();
     let results: Vec<Arc<std::sync::Mutex<TcpResult>>> = (0..scn.tcp.len()).map(|_| Arc::new(std::sync::Mutex::new(TcpResult::default()))).collect();
     let mut hs = vec![];
     for (ci, c) in scn.tcp.iter().enumerate() {
         let (c, plan, result) = (c.clone(), plans[ci].clone(), results[ci].clone());
+        let (budget, patience) = (msg_budget_ms(scn), client_patience(scn));
         hs.push(shuttle::thread::spawn(move || {
             simrt::thread::sleep(Duration::from_millis(c.connect_ms));
             let Ok(mut stream) = simrt::net::connect(target_addr(c.v6, false), tcp_client_addr(ci, c.v6), c.cap) else {
@@ -658,12 +722,12 @@ fn run_blocking(scn: &Scn) {
                 let mut from = 0;
                 let mut resp_i = 0;
                 for end in plan.msg_ends.iter() {
-                    if !client_write_b(&mut stream, &c, &plan, from, *end, &mut seg_i, &mut msg_elapsed) {
+                    if !client_write_b(&mut stream, &c, &plan, from, *end, &mut seg_i, &mut msg_elapsed, budget) {
                         break;
                     }
                     from = *end;
                     if resp_i < plan.resp_ends.len() {
-                        client_read_b(&mut stream, &c, &result, Some(plan.resp_ends[resp_i]));
+                        client_read_b(&mut stream, &c, &result, Some(plan.resp_ends[resp_i]), patience);
                         resp_i += 1;
                         let r = result.lock().unwrap();
                         if r.eof || r.timed_out || r.read_error.is_some() {
@@ -682,14 +746,14 @@ fn run_blocking(scn: &Scn) {
                     if c.fault == 2 {
                         simrt::count_fault(Fault::ClientStall);
                     }
-                    client_read_b(&mut stream, &c, &result, None);
+                    client_read_b(&mut stream, &c, &result, None, patience);
                 }
             } else {
                 // pipelined: a writer task (this one) and a reader task on a clone of the stream
                 let mut rd = stream.try_clone().expect("clone");
                 let (c2, r2) = (c.clone(), result.clone());
-                let reader_task = shuttle::thread::spawn(move || client_read_b(&mut rd, &c2, &r2, None));
-                let all = client_write_b(&mut stream, &c, &plan, 0, plan.stream.len(), &mut seg_i, &mut msg_elapsed);
+                let reader_task = shuttle::thread::spawn(move || client_read_b(&mut rd, &c2, &r2, None, patience));
+                let all = client_write_b(&mut stream, &c, &plan, 0, plan.stream.len(), &mut seg_i, &mut msg_elapsed, budget);
                 if c.fault == 1 {
                     stream.reset();
                     simrt::count_fault(Fault::TcpPeerReset);
@@ -753,8 +817,8 @@ fn run_blocking(scn: &Scn) {
     group.await_shutdown();
     let took_ms = (simrt::now_ns() - t0) / 1_000_000;
     simrt::thread::wait_all_exited();
-    if des && !midrun && took_ms > SHUTDOWN_POLL_MS + READ_TIMEOUT_MS + 10 {
-        viol("shutdown-too-slow", format!("blocking provider: await_shutdown returned {took_ms} simulated ms after shut_down (bound {} ms)", SHUTDOWN_POLL_MS + READ_TIMEOUT_MS));
+    if des && !midrun && took_ms > shutdown_bound_ms(scn) {
+        viol("shutdown-too-slow", format!("blocking provider: await_shutdown returned {took_ms} simulated ms after shut_down (bound {} ms)", shutdown_bound_ms(scn)));
     }
 
     let exact_ok = des && !midrun && !spawn_fail;
@@ -774,7 +838,7 @@ fn run_blocking(scn: &Scn) {
 }
 
 /// Client reader: collects octets until EOF, error, a 30 s silence, or `until` octets.
-fn client_read_b(s: &mut simrt::net::TcpStream, c: &TcpClient, result: &std::sync::Mutex<TcpResult>, until: Option<usize>) {
+fn client_read_b(s: &mut simrt::net::TcpStream, c: &TcpClient, result: &std::sync::Mutex<TcpResult>, until: Option<usize>, patience: Duration) {
     use std::io::Read;
     // stop-and-wait clients read without pauses: a slow reader would delay the *next request*
     // beyond the server's read time-out, which is the client's fault, not the server's
@@ -786,7 +850,7 @@ fn client_read_b(s: &mut simrt::net::TcpStream, c: &TcpClient, result: &std::syn
                 return;
             }
         }
-        let _ = s.set_read_timeout(Some(Duration::from_secs(30)));
+        let _ = s.set_read_timeout(Some(patience));
         let r = s.read(&mut buf);
         let mut res = result.lock().unwrap();
         match r {
@@ -813,7 +877,7 @@ fn client_read_b(s: &mut simrt::net::TcpStream, c: &TcpClient, result: &std::syn
 
 /// Client writer: puts `plan.stream[from..to]` on the wire in the client's segments and
 /// pauses; false if the connection was closed by the peer or the client's fault point is reached.
-fn client_write_b(s: &mut simrt::net::TcpStream, c: &TcpClient, plan: &TcpPlan, from: usize, to: usize, seg_i: &mut usize, msg_elapsed: &mut u64) -> bool {
+fn client_write_b(s: &mut simrt::net::TcpStream, c: &TcpClient, plan: &TcpPlan, from: usize, to: usize, seg_i: &mut usize, msg_elapsed: &mut u64, budget_ms: u64) -> bool {
     use std::io::Write;
     let mut off = from;
     while off < to {
@@ -836,12 +900,20 @@ fn client_write_b(s: &mut simrt::net::TcpStream, c: &TcpClient, plan: &TcpPlan, 
         }
         let pause = c.pauses_ms[*seg_i % c.pauses_ms.len()];
         *seg_i += 1;
-        // keep every message within 4 s of the previous one (the server's read time-out is 5 s)
-        if pause > 0 && *msg_elapsed + pause <= 4000 {
+        // keep every message within 80 % of the server's (measured) read time-out
+        if pause > 0 && *msg_elapsed + pause <= budget_ms {
             *msg_elapsed += pause;
             simrt::count_fault(Fault::TcpDelay);
             simrt::thread::sleep(Duration::from_millis(pause));
         }
     }
     true
+}
+
+/// Prints the measured constants (for the evidence and for debugging).
+pub fn calibration_summary() -> String {
+    format!(
+        "blocking: read time-out {} ms, idle shutdown {} ms; tokio: read time-out {} ms, idle shutdown {} ms",
+        READ_TIMEOUT_MS[0].load(SeqCst), IDLE_SHUTDOWN_MS[0].load(SeqCst), READ_TIMEOUT_MS[1].load(SeqCst), IDLE_SHUTDOWN_MS[1].load(SeqCst)
+    )
 }
